@@ -460,6 +460,15 @@ func ruleChunkBound() *Rule {
 					val := resolve(nil, store.Val)
 					if c, _ := callOf(nil, val, -1); c != nil && calleeName(c.Common()) == "(*bytes.Buffer).Bytes" {
 						buf := resolve(nil, c.Common().Args[0])
+						// the request is sent with the node mutex released, and another invocation for the same follower can run
+						// meanwhile (every heartbeat round spawns one): the bytes must live in memory private to this invocation
+						kPriv := "chunk bytes of " + siteKey(nil, in) + " live in memory private to this invocation"
+						if al, ok := buf.(*ssa.Alloc); ok && al.Parent() == fn {
+							obs.ok(kPriv, pos, "the buffer is a variable of this invocation")
+						} else {
+							obs.fail(kPriv, pos, "request.Bytes aliases a buffer that outlives this invocation ("+describe(nil, c.Common().Args[0])+"): the request is serialised after the mutex is released, "+
+								"and a later invocation for the same follower resets and refills the buffer meanwhile, so a request arrives with its own offset and another chunk's bytes", nil)
+						}
 						fills := 0
 						for _, bb := range fn.Blocks {
 							for _, x := range bb.Instrs {
